@@ -424,7 +424,7 @@ func firstLine(s string) string {
 func runHistory(r *vh.Run, focus string, i int) {
 	rng := r.Rand(i)
 	kind := []vh.StoreKind{vh.Mem, vh.Dir}[i%2]
-	uo := vh.UOpts{Algs: i%5 == 0, Docker: i%7 == 0, Tag: fmt.Sprint(i)}
+	uo := vh.UOpts{Algs: i%5 == 0, Docker: (i/2)%2 == 0, Tag: fmt.Sprint(i)}
 	if focus == "C03" {
 		uo.Tags = grammarTags(rng)
 	}
